@@ -419,7 +419,8 @@ template <class T> NOINLINE static void elem_finish(pbt::Ctx& c, const std::stri
 	for (int op = 0; op < E_EQ; ++op) {
 		if (!(g.done >> op & 1)) continue;
 		auto key = [&] { return std::string(ELEM_NAME[op]) + "/" + shp(k.a.C, k.a.R) + "/" + tq; };
-		judge(c, k.cls, mk(key), g.got[op], k.want[op], nullptr, nullptr, 1, CMP_VALUE, "", mk(in));
+		// -m and +m are sign manipulations, not arithmetic: the sign of a zero entry is part of the definition (-(+0) = -0)
+		judge(c, k.cls, mk(key), g.got[op], k.want[op], nullptr, nullptr, 1, (op == E_NEG || op == E_POS) ? CMP_BITS : CMP_VALUE, "", mk(in));
 		if (op == E_POSTINC || op == E_POSTDEC) {
 			auto keyr = [&] { return std::string(ELEM_NAME[op]) + "/returned-value/" + shp(k.a.C, k.a.R) + "/" + tq; };
 			judge(c, k.cls, mk(keyr), g.ret[op - E_POSTINC], k.a, nullptr, nullptr, 1, CMP_VALUE, "", mk(in));
